@@ -12,6 +12,7 @@ REPO = os.environ.get("VERIF_REPO", "/repo")
 VX = os.path.join(VERIF, "vx", "target", "release", "vx")
 
 
+INLINE = {}  # src rel -> set of helper names to inline at their call sites (E12)
 AUTO = {}   # src rel -> set of item names pulled in automatically (helpers the extracted text calls)
 
 
@@ -225,6 +226,26 @@ def parse_spec(path):
 ENV_TAG_RE = re.compile(r"//\s*#([\w.\-]+)?\s*\[([^\]]*)\]\s*$")
 
 
+def _code_ranges(data, s, e):
+    """Byte ranges of data[s:e] outside comments and string literals."""
+    out, i, st = [], s, s
+    while i < e:
+        c2 = data[i:i + 2]
+        if c2 == b"//":
+            out.append((st, i)); j = data.find(b"\n", i, e); i = e if j < 0 else j; st = i
+        elif c2 == b"/*":
+            out.append((st, i)); j = data.find(b"*/", i + 2, e); i = e if j < 0 else j + 2; st = i
+        elif data[i:i + 1] == b'"':
+            out.append((st, i)); i += 1
+            while i < e and data[i:i + 1] != b'"':
+                i += 2 if data[i:i + 1] == b"\\" else 1
+            i += 1; st = i
+        else:
+            i += 1
+    out.append((st, e))
+    return [(a, b) for (a, b) in out if b > a]
+
+
 class Unit:
     """Assembles one Verus input file."""
 
@@ -373,7 +394,13 @@ class Unit:
         # an edit that lies strictly inside a replaced range (e.g. E4 inside a statement removed by
         # the join expansion) is subsumed by the outer edit
         outer = [(a, b) for (a, b, _, _) in edits if b > a]
-        edits = [e_ for e_ in edits if not any(oa <= e_[0] and e_[1] <= ob and (oa, ob) != (e_[0], e_[1]) and not (e_[0] == e_[1] == oa) for (oa, ob) in outer)]
+        def _sub(e_):
+            return [(oa, ob) for (oa, ob) in outer if oa <= e_[0] and e_[1] <= ob and (oa, ob) != (e_[0], e_[1]) and not (e_[0] == e_[1] == oa)]
+        subsumed = {}
+        for e_ in edits:
+            for o in _sub(e_):
+                subsumed.setdefault(o, []).append(e_)
+        edits = [e_ for e_ in edits if not _sub(e_)]
         edits = sorted(enumerate(edits), key=lambda p: (p[1][0], p[0]))
         pos = s
         for _, (a, b, text, tag) in edits:
@@ -381,7 +408,11 @@ class Unit:
                 raise Undecided(f"overlapping edit at {src.rel}:{src.line_of(a)} ({a},{b}) pos={pos}")
             if a > pos:
                 self.orig(src, pos, a)
-            if text:
+            if callable(text):
+                # E12: the edits that fall inside the replaced call (e.g. inside its arguments)
+                # are handed to the emitter, which applies them to the argument texts it copies
+                text(subsumed.get((a, b), []))
+            elif text:
                 self.raw(text, tag=tag)
             pos = b
         if pos < e:
@@ -493,6 +524,8 @@ class Unit:
                 sep = "" if (n["nargs"] == 0 or n["trailing"]) else ", "
                 eds.append((pos, pos, sep + garg, None))
                 self._log("E4", src, pos, "", garg)
+        # E12: contract-less helpers of the same file are inlined at their call sites
+        eds += self._inline_edits(src, it, key, depth=0)
         # E5: return binder
         rname = spec.returns
         if rname and sig["output"]:
@@ -737,6 +770,7 @@ class Unit:
                 sep = "" if (n["nargs"] == 0 or n["trailing"]) else ", "
                 eds.append((n["close"], n["close"], sep + garg, None))
                 self._log("E4", src, n["close"], "", garg)
+        eds += self._inline_edits(src, {"nodes": sub, "sig": it.get("sig"), "is_slice": True}, key, depth=0)
         if wrap_return:
             for n in sub:
                 if n["k"] == "return":
@@ -885,6 +919,173 @@ class Unit:
                 reg("callee-precondition", n["path"], n)
             elif n["k"] == "macro" and n["path"].split("::")[-1] in self.PANIC_MACROS:
                 reg("panic-reachable", n["path"].split("::")[-1] + "!", n)
+
+    def _find_helper(self, src, name):
+        # `name` is `fn` or `Type::fn`
+        hits = [f for f in src._walk(src.index["items"]) if f["kind"] == "fn" and f.get("body")
+                and (f["name"] == name or f.get("qual", "") == name or f.get("qual", "").endswith("::" + name))
+                and not f.get("qual", "").startswith("tests::")]
+        if len(hits) != 1:
+            raise Undecided(f"E12: helper `{name}` in {src.rel} resolves to {len(hits)} functions")
+        return hits[0]
+
+    def _guard_returns(self, src, h, hname):
+        """E12 (guards): a helper may contain `return` only in the form of guard statements
+        `if c { ...; return e; }` (no else) that are statements of the helper's outermost block.
+        Each is rewritten to `if c { ...; e } else { <rest of the body> }`, which has the same value
+        and the same effects; any other `return` leaves the helper outside E12."""
+        hn = h["nodes"]
+        rets = [x for x in hn if x["k"] == "return"]
+        if not rets:
+            return []
+        hb0, hb1 = h["body"]
+        blocks = [x for x in hn if x["k"] == "block"]
+        top = [b for b in blocks if b["span"][0] == hb0]
+        if not top:
+            raise Undecided(f"E12: helper {hname}: body block not indexed")
+        top = top[0]
+        stmts = [x for x in hn if x["k"] == "stmt"]
+        eds = []
+        for r in rets:
+            sr = [x for x in stmts if x["span"][0] == r["span"][0]]
+            if not sr:
+                raise Undecided(f"E12: helper {hname}: `return` is not a statement of its own: not inlined")
+            sr = sr[0]
+            blk = [b for b in blocks if b["id"] == sr["block"]][0]
+            same = [x for x in stmts if x["block"] == blk["id"]]
+            if max(x["idx"] for x in same) != sr["idx"]:
+                raise Undecided(f"E12: helper {hname}: `return` is not the last statement of its block")
+            ifs = [x for x in hn if x["k"] == "if" and x["then"] == blk["span"] and not x["has_else"]]
+            if not ifs:
+                raise Undecided(f"E12: helper {hname}: `return` outside an else-less `if` guard: not inlined")
+            i_ = ifs[0]
+            tops = [x for x in stmts if x["block"] == top["id"] and x["span"][0] == i_["span"][0] and x["span"][1] == i_["span"][1]]
+            if not tops or tops[0]["kind"] != "expr":
+                raise Undecided(f"E12: helper {hname}: guard `if` with `return` is not a plain statement of the outermost block")
+            if r.get("expr"):
+                eds.append((r["span"][0], r["expr"][0], "", None))
+            else:
+                eds.append((r["span"][0], r["span"][1], "()", None))
+            if sr["span"][1] > r["span"][1]:
+                eds.append((r["span"][1], sr["span"][1], "", None))     # the `;`
+            eds.append((i_["span"][1], i_["span"][1], " else {", None))
+            eds.append((hb1 - 1, hb1 - 1, "}", None))
+        return eds
+
+    def _inline_edits(self, src, it, key, depth):
+        """E12: a call `self.h(args)[.await]` / `h(args)` / `T::h(args)` to a helper of the same file
+        that has no contract is replaced by the helper's body in a block
+        `{ let (p1, ..): (T1, ..) = (a1, ..); <body> }`.  Meaning preserving under the conditions
+        checked here: no `return` in the helper; if the helper body uses `?`, the call itself is
+        immediately followed by `?` and both functions return the same `Result<_>` alias (so the
+        error takes the same conversions); parameters are plain identifiers; no generics; depth <= 2."""
+        names = INLINE.get(src.rel, set())
+        if not names:
+            return []
+        eds = []
+        for n in it["nodes"]:
+            hname = None
+            if n["k"] == "mcall":
+                recv = src.text(*n["recv"]).strip()
+                cands = [x for x in names if x.split("::")[-1] == n["name"]]
+                if recv == "self" and cands:
+                    hname = cands[0]
+            elif n["k"] == "call":
+                segs = n["path"].split("::")
+                cands = [x for x in names if x == n["path"] or x == "::".join(segs[-2:]) or (len(segs) == 1 and x == segs[0])]
+                if cands:
+                    hname = cands[0]
+            if hname is None:
+                continue
+            h = self._find_helper(src, hname)
+            if depth >= 2:
+                raise Undecided(f"E12: helper nesting deeper than 2 at {hname}")
+            hn = h["nodes"]
+            ret_edits = self._guard_returns(src, h, hname)
+            if h["sig"]["generics"]:
+                raise Undecided(f"E12: helper {hname} is generic: not inlined")
+            params = [p_ for p_ in h["sig"]["inputs"] if not p_.get("self")]
+            if len(params) != len(n["args"]):
+                raise Undecided(f"E12: arity mismatch at call of {hname}")
+            for p_ in params:
+                if not re.match(r"^(mut\s+)?[A-Za-z_][A-Za-z0-9_]*$", src.text(*p_["pat"]).strip()):
+                    raise Undecided(f"E12: helper {hname} has a pattern parameter")
+            end = n["span"][1]
+            aw = [x for x in it["nodes"] if x["k"] == "await" and x["base_end"] == n["span"][1]]
+            if aw:
+                end = aw[0]["span"][1]
+            uses_try = any(x["k"] == "try" for x in hn)
+            if uses_try:
+                after = src.text(end, min(end + 8, len(src.data))).lstrip()
+                ho = src.text(*h["sig"]["output"]).strip() if h["sig"]["output"] else ""
+                fo = src.text(*it["sig"]["output"]).strip() if it.get("sig") and it["sig"]["output"] else ""
+                # the call may also be the tail expression of the caller when both return the same type:
+                # the helper's error then IS the caller's result
+                b0 = [x for x in it["nodes"] if x["k"] == "block"]
+                tail_ok = False
+                if b0 and not it.get("is_slice") and b0[0]["span"] == it.get("body"):
+                    st_ = [x for x in it["nodes"] if x["k"] == "stmt" and x["block"] == b0[0]["id"]]
+                    tail_ok = bool(st_) and st_[-1]["kind"] == "expr" and st_[-1]["span"][0] == n["span"][0] and st_[-1]["span"][1] == end and ho == fo
+                same_alias = re.match(r"^Result<[^,]*>$", ho) and re.match(r"^Result<[^,]*>$", fo)
+                if not ((after.startswith("?") and same_alias) or tail_ok):
+                    raise Undecided(f"E12: helper {hname} uses `?` but its call is neither `{hname}(..)?` between two `Result<_>` functions nor the caller's tail expression of the same type")
+            lhs = ", ".join(src.text(*p_["pat"]).strip() for p_ in params)
+            tys = ", ".join(src.text(*p_["ty"]).strip() for p_ in params)
+            hb0, hb1 = h["body"]
+
+            def emit(inner_caller, h=h, hname=hname, lhs=lhs, tys=tys, argspans=list(n["args"]), hb0=hb0, hb1=hb1, ret_edits=ret_edits):
+                ret = src.text(*h["sig"]["output"]).strip() if h["sig"]["output"] else "()"
+                if "::" in h.get("qual", ""):
+                    ret = re.sub(r"\bSelf\b", h["qual"].split("::")[-2], ret)
+                    tys = re.sub(r"\bSelf\b", h["qual"].split("::")[-2], tys)
+                self.raw("{ /* E12: body of helper " + hname + " inlined */ ")
+                if argspans:
+                    # all arguments are evaluated before any parameter is bound (tuple binding)
+                    self.raw(f"let ({lhs},): ({tys},) = (")
+                    for (a0, a1) in argspans:
+                        self._apply(src, a0, a1, [e_ for e_ in inner_caller if a0 <= e_[0] and e_[1] <= a1])
+                        self.raw(", ")
+                    self.raw("); ")
+                self.raw("let __inl: " + ret + " = {")
+                inner = list(ret_edits)
+                # the helper body gets the same catalogued edits as any extracted text
+                if self.drop_async:
+                    for x in h["nodes"]:
+                        if x["k"] == "await":
+                            inner.append((x["base_end"], x["span"][1], "", None))
+                for x in h["nodes"]:
+                    cname = None
+                    if x["k"] == "mcall" and ("m:" + x["name"]) in self.ghost_callees:
+                        cname = "m:" + x["name"]
+                    elif x["k"] == "call" and ("c:" + x["path"]) in self.ghost_callees:
+                        cname = "c:" + x["path"]
+                    if cname is not None and isinstance(self.ghost_callees[cname], tuple):
+                        g_, rx = self.ghost_callees[cname]
+                        if not re.search(rx, src.text(*x["recv"])):
+                            cname = None
+                    if cname is not None:
+                        g_ = self.ghost_callees[cname]
+                        g_ = g_[0] if isinstance(g_, tuple) else g_
+                        sep = "" if (x["nargs"] == 0 or x["trailing"]) else ", "
+                        inner.append((x["close"], x["close"], sep + g_, None))
+                    if x["k"] == "macro" and x["path"].split("::")[-1] in ("select", "join"):
+                        raise Undecided(f"E12: helper {hname} contains select!/join!")
+                    if x["k"] == "loop":
+                        raise Undecided(f"E12: helper {hname} contains a loop (no contract for it)")
+                inner += self._inline_edits(src, h, key, depth + 1)
+                # `Self` in the helper names the helper's impl type, not the caller's
+                hq = h.get("qual", "")
+                if "::" in hq:
+                    for (a0, a1) in _code_ranges(src.data, hb0 + 1, hb1 - 1):
+                        for m_ in re.finditer(rb"\bSelf\b", src.data[a0:a1]):
+                            inner.append((a0 + m_.start(), a0 + m_.end(), hq.split("::")[-2], None))
+                self._apply(src, hb0 + 1, hb1 - 1, inner)
+                self.raw(" }; __inl }")
+
+            eds.append((n["span"][0], end, emit, None))
+            self._log("E12", src, n["span"][0], src.text(n["span"][0], end)[:60], f"body of helper {hname} inlined")
+            self.auto_included.append(f"src/{src.rel}: fn {hname} inlined at its call site in {key} (E12)")
+        return eds
 
     def _join_edits(self, src, it, n, key):
         """E3 (join): `join!(f1, f2)` where f1, f2 are locals bound by `let fi = <call>;` (futures
